@@ -195,7 +195,72 @@ func (c *ctx) verifyIndexFacts() {
 	c.emitExpr("verify_sliceHi", "vSliceHi", "(last : Nat)", "Nat", sliceHi, env, "0")
 }
 
-// shapes (filled in per property)
-func (c *ctx) shapeFacts() {}
+// callShape lists, in source order, the calls inside fd whose callee (as printed) ends with one
+// of the given suffixes; the label of the matching pattern is recorded.
+func (c *ctx) callShape(fd *ast.FuncDecl, pats [][2]string) []string {
+	type hit struct {
+		pos   token.Pos
+		label string
+	}
+	var hits []hit
+	if fd == nil {
+		return nil
+	}
+	walk(fd.Body, func(n ast.Node) bool {
+		call, ok := n.(*ast.CallExpr)
+		if !ok {
+			return true
+		}
+		fn := exprString(call.Fun)
+		for _, p := range pats {
+			if strings.HasSuffix(fn, p[0]) {
+				hits = append(hits, hit{call.Pos(), p[1]})
+				break
+			}
+		}
+		return true
+	})
+	// ast.Inspect visits in source order already, but nested calls (args before callee text) are
+	// ordered by position to be safe
+	for i := 1; i < len(hits); i++ {
+		for j := i; j > 0 && hits[j].pos < hits[j-1].pos; j-- {
+			hits[j], hits[j-1] = hits[j-1], hits[j]
+		}
+	}
+	out := make([]string, len(hits))
+	for i, h := range hits {
+		out[i] = h.label
+	}
+	return out
+}
+
+func (c *ctx) emitShape(site, name string, shape []string, found bool) {
+	c.site(site, found)
+	if !found {
+		fmt.Fprintf(&c.lean, "-- SITE NOT FOUND: %s\n", site)
+	}
+	fmt.Fprintf(&c.lean, "def %s : List String := [%s]\n", name, quoteList(shape))
+	c.facts[name] = shape
+}
+
+// shapes: ordered lists of recognised calls in functions whose step order matters
+func (c *ctx) shapeFacts() {
+	c.lean.WriteString("\n/-! shapes -/\n")
+	// sparse-file.go loadChunk
+	fd := c.funcDecl(c.files, "sparseFileLoader", "loadChunk")
+	sh := c.callShape(fd, [][2]string{
+		{"once.Do", "once.Do"}, {"chunks[i].mu.Lock", "chunk.mu.Lock"}, {"done.Get", "done.Get"},
+		{"s.GetChunk", "GetChunk"}, {"c.Data", "Data"}, {".WriteAt", "WriteAt"}, {"done.Set", "done.Set"}})
+	c.lean.WriteString("/-- order of operations in `sparseFileLoader.loadChunk` -/\n")
+	c.emitShape("shape_sparse_loadChunk", "sparseLoadChunkShape", sh, fd != nil)
+
+	// local.go StoreChunk
+	fd = c.funcDecl(c.files, "LocalStore", "StoreChunk")
+	sh = c.callShape(fd, [][2]string{
+		{"os.MkdirAll", "MkdirAll"}, {"tempfile.NewMode", "TempFile"}, {"tmp.Write", "Write"}, {"tmp.Close", "Close"},
+		{"os.Remove", "Remove"}, {"os.Rename", "Rename"}, {"os.Create", "Create"}, {"os.OpenFile", "OpenFile"}, {"ioutil.WriteFile", "WriteFile"}, {"os.WriteFile", "WriteFile"}})
+	c.lean.WriteString("/-- file operations of `LocalStore.StoreChunk`, in source order -/\n")
+	c.emitShape("shape_local_StoreChunk", "localStoreChunkShape", sh, fd != nil)
+}
 
 func (c *ctx) miscFacts() {}
